@@ -389,6 +389,12 @@ impl<K: KeyT> SetRunner<K> {
                 }
                 fmt_es(out.get())
             }
+            // the closure of get_or_insert_with panics (it only runs for an absent value)
+            ("get_or_insert_with_panic", 1) => {
+                let r = m.get_or_insert_with(&Q(n(0)), |_q| -> K { std::panic::panic_any(tape::TapePanic("pred")) });
+                let _ = r;
+                "present".into()
+            }
             ("drain_fold", 1) | ("into_iter_fold", 1) => {
                 let mut out = Held::new(Vec::new());
                 let stop = n(0) as usize;
@@ -533,6 +539,12 @@ impl<K: KeyT> SetRunner<K> {
             ("replace", 2) => {
                 // the NEW object is stored, the old one returned
                 expect = Some(r.insert(n(0), n(1)).map_or("-".into(), |kid| fe(n(0), kid)));
+            }
+            ("get_or_insert_with_panic", 1) => {
+                if !r.contains_key(&n(0)) {
+                    return Some("get_or_insert_with returned although the value is absent and its closure panics".into());
+                }
+                expect = Some("present".into());
             }
             ("get_or_insert", 2) | ("entry_insert", 2) | ("get_or_insert_with", 2) => {
                 let kid = *r.entry(n(0)).or_insert(n(1));
